@@ -7,6 +7,7 @@ import (
 	"fmt"
 	"sort"
 	"strings"
+	"unicode/utf8"
 
 	"pgregory.net/rapid"
 
@@ -59,6 +60,18 @@ type Sys struct {
 	parsed map[string]*pat.Pattern
 	// Gone maps pairs that were removed (and are not live now) to the handler id they had.
 	Gone map[PM]string
+	// Unjustified collects Handle calls the router refused although nothing the library documents as a reason for
+	// refusal applies: the pattern is well-formed, its methods are valid, free and not repeated, and no live route
+	// differs from it only in parameter names.
+	Unjustified []string
+}
+
+// Complaint turns the first unjustified refusal into a violation (nil when there is none).
+func (s *Sys) Complaint() *rig.Violation {
+	if len(s.Unjustified) == 0 {
+		return nil
+	}
+	return rig.Violf("handle-refused-without-reason", "%s", s.Unjustified[0])
 }
 
 func NewSys(env *rig.Env, icptName string, opts rig.Opts) *Sys {
@@ -132,6 +145,15 @@ func (s *Sys) Apply(op Op) StepResult {
 			h := s.Env.NewH()
 			if v, panicked := s.handle(op, p, h, op.Methods); panicked {
 				res.Panicked, res.PanicVal = true, v
+				if pp := s.Parsed(p); pp != nil && utf8.ValidString(p) && s.M.RejectReason(p, op.Methods) == "" {
+					variant := false
+					for _, q := range s.LiveParsed() {
+						variant = variant || (q.Src != p && pat.NameEquivalent(pp, q))
+					}
+					if !variant {
+						s.Unjustified = append(s.Unjustified, fmt.Sprintf("Handle(%q, %v) via %q was refused with %v, but the pattern is well-formed, its methods are valid and free, and no live route differs from it only in parameter names; live %v", p, op.Methods, op.Via, v, s.M.Live()))
+					}
+				}
 				continue
 			}
 			s.M.Handle(p, h.ID, op.Methods)
